@@ -359,7 +359,7 @@ def next_build(bid):
     all-9 is the maximum."""
     n = int(bid)
     if n < 1000:
-        bid = str(n + 1000)
+        bid = str(n + 1000).zfill(len(bid))  # the width (leading zeros) is never lost
     if set(bid) == {"9"}:
         raise OverflowError(bid)
     width = len(bid)
@@ -441,3 +441,20 @@ def bump(pattern, old_text, date, today, **flags):
     if parse(ast, new_text) is None:
         return None
     return new_text
+
+
+def render_full(ast, st):
+    """Rendering with every optional group written out (explicit zeros): a different text that denotes
+    the same version, e.g. '1.2.0' for '1.2' under MAJOR.MINOR[.PATCH]."""
+    out = ""
+    for n in ast:
+        if n[0] == "lit":
+            out += n[1]
+        elif n[0] == "part":
+            out += render_part(n[1], st)
+        else:
+            out += render_full(n[1], st)
+    return out
+
+
+TAG_ORDER = ["dev", "alpha", "beta", "rc", "final", "post"]
